@@ -85,3 +85,48 @@ Definition found_rel {A B} (R : A -> B -> Prop)
   | OutOfFuel, OutOfFuel => True
   | _, _ => False
   end.
+
+(* ------------------------------------------------------------------------------------------
+   Property C17, clause by clause, for a variant v of the code.  [C17_full fixed] is proved
+   (props/C17.v: C17_holds); [C17_full shipped] is refuted, each failing clause separately. *)
+
+(* "'*' matches any run of characters including '/', '?' matches exactly one character, a
+   backslash makes the following '*', '?' or backslash literal, and every other character
+   matches only itself": all patterns with valid escapes x all paths *)
+Definition glob_clause (dotall : bool) : Prop :=
+  forall g, valid_escapes g = true ->
+  forall p, exists b, glob_match dotall g p = Ok b /\ (b = true <-> glob_matches g p).
+
+(* "returns the last Files paragraph, in file order, one of whose whitespace-separated patterns
+   matches the whole path" and "the licence for the file is that paragraph's own licence when it
+   carries text, otherwise the first stand-alone licence paragraph with the same name":
+   all documents x all paths (lossless reader; the lossy one through [agree_clause]) *)
+Definition lookup_clause (v : variant) : Prop :=
+  forall d path, doc_valid d ->
+  exists r ans,
+    ll_find_files v d path = Ok r /\
+    is_last_such (fun p => para_matches p path) (files_paragraphs d) r /\
+    ll_find_license_for_file v d path = Ok ans /\
+    licence_answer d r ans.
+
+(* "the lossless and lossy readers give the same answers": whenever the lossy reader accepts
+   the document — and it accepts every well-formed one ([accept_clause]) *)
+Definition agree_clause (v : variant) : Prop :=
+  forall d c, ly_of_doc v d = Ok c ->
+  forall path,
+    found_rel (files_conv v) (ll_find_files v d path) (ly_find_files v c path) /\
+    ll_find_license_for_file v d path = ly_find_license_for_file v c path /\
+    forall n, ll_find_license_by_name v d n = Ok (ly_find_license_by_name c n).
+Definition accept_clause (v : variant) : Prop :=
+  forall d, wf_doc d -> exists c, ly_of_doc v d = Ok c.
+
+(* "text not starting with a Format field is refused as not machine-readable" (Err 2), by all
+   three text entry points, and only such text is *)
+Definition gate_clause (v : variant) : Prop :=
+  forall s,
+    (ll_from_str s = Err 2%N <-> format_gate s = false) /\
+    (ll_from_str_relaxed s = Err 2%N <-> format_gate s = false) /\
+    (ly_from_str v s = Err 2%N <-> format_gate s = false).
+
+Definition C17_full (v : variant) : Prop :=
+  glob_clause (v_dotall v) /\ lookup_clause v /\ agree_clause v /\ accept_clause v /\ gate_clause v.
